@@ -8,11 +8,11 @@ WORK = os.environ.get("VERIF_WORK", "/tmp/verif-work")
 ENV = dict(os.environ, GOFLAGS="-mod=mod", GOPROXY="off", GOSUMDB="off", GOTOOLCHAIN="local", CGO_ENABLED="0")
 
 PACKAGES = [
-    "common/event", "common/utils/safeacks", "common/gera", "common/utils",
+    "common/event", "common/utils/safeacks", "common/gera", "common/utils", "common/utils/uid",
     "core/controlcommands", "core/workflow", "core/workflow/callable",
     "core/environment", "core/task", "core", "core/the",
     "executor/executable", "executor/executorcmd", "executor",
-    "apricot/local",
+    "apricot/local", "configuration/cfgbackend",
 ]
 
 def sh(cmd, **kw):
@@ -79,7 +79,7 @@ def instrument(verbose=False):
     inj = inject_files()
     virt = virtual_files()
     extra = instr_config()
-    key = file_hash(srcs + list(inj.values()) + [gi, os.path.join(REPO, "go.mod")]) + hashlib.sha1(json.dumps([sorted(inj), extra], sort_keys=True).encode()).hexdigest()[:8]
+    key = file_hash(srcs + list(inj.values()) + [gi, os.path.join(REPO, "go.mod")] + [v for k, v in virt.items() if k.startswith("verif_vrt/")]) + hashlib.sha1(json.dumps([sorted(inj), extra], sort_keys=True).encode()).hexdigest()[:8]
     out = os.path.join(WORK, "instr-" + key)
     ov = os.path.join(out, "overlay.json")
     if not os.path.exists(os.path.join(out, "ok")):
@@ -87,7 +87,8 @@ def instrument(verbose=False):
         for d in glob.glob(os.path.join(WORK, "instr-*")):
             shutil.rmtree(d, ignore_errors=True)
         os.makedirs(out, exist_ok=True)
-        cfg = {"repo": REPO, "out": out, "packages": PACKAGES, "inject": inj, "virtual": {}, "fsm": True}
+        cfg = {"repo": REPO, "out": out, "packages": PACKAGES, "inject": inj, "virtual": {}, "fsm": True,
+               "typecheck_virtual": {k: v for k, v in virt.items() if k.startswith("verif_vrt/")}}
         cfg.update(extra)
         cp = os.path.join(out, "config.json")
         json.dump(cfg, open(cp, "w"), indent=1)
@@ -104,6 +105,11 @@ def instrument(verbose=False):
     rep = {k: v for k, v in o["Replace"].items() if "/verif_vrt/" not in k and "/verif_h/" not in k}
     for k, v in virt.items():
         rep[os.path.join(REPO, k)] = v
+    # go.mod / go.sum are served from copies: a build can never modify /repo
+    for f in ("go.mod", "go.sum"):
+        dst = os.path.join(out, f)
+        shutil.copyfile(os.path.join(REPO, f), dst)
+        rep[os.path.join(REPO, f)] = dst
     ov2 = os.path.join(out, "overlay-full.json")
     json.dump({"Replace": rep}, open(ov2, "w"), indent=1)
     return ov2
